@@ -41,6 +41,8 @@ def make_case(ctype):
             # a recording set's top-level `recordings` list is at once the collection's content and the document's definition list:
             # a set listing one recording twice cannot be both faithful (C01) and free of duplicate ids, so it is outside C02's domain
             spec["top"]["recordings"] = list(dict.fromkeys(spec["top"]["recordings"]))
+        if ctype == "annotation_project":
+            spec["post_append"] = draw(st.integers(0, 3)) == 0
         if ctype == "evaluation":
             # the evaluation is edited after it was built (models are mutable, validators do not re-run): low-score predictions
             # filtered out of a clip, an annotation withdrawn - the matches still mention them, so they stay reachable
@@ -67,6 +69,17 @@ def check(spec, ctx):
             if len(keep) < len(side.sound_events):
                 side.sound_events = keep + [x for x in side.sound_events if id(x) in mentioned][1:]  # the first mentioned one leaves the list
                 ctx.label(f"post_mutation={pm}")
+    if spec["ctype"] == "annotation_project" and spec.get("post_append") and getattr(obj, "clip_annotations", None):
+        # a clip annotation added to the project after it was built (validators do not re-run): its clip has no task, it is still
+        # reachable from the project and must be defined
+        from soundevent import data as _data
+
+        src_ca = obj.clip_annotations[0]
+        import uuid as _uuid
+
+        new_clip = _data.Clip(uuid=_uuid.UUID(int=0xC02C02C02), recording=src_ca.clip.recording, start_time=src_ca.clip.start_time, end_time=src_ca.clip.end_time + 1.0)
+        obj.clip_annotations.append(_data.ClipAnnotation(uuid=_uuid.UUID(int=0xC02C02C03), clip=new_clip, created_on=src_ca.created_on))
+        ctx.label("post_append")
     path = os.path.join(d, "doc2.json")
     kw = {"audio_dir": audio} if spec["audio"] != "none" else {}
     ctx.call(spec, f"io.save({spec['ctype']})", io.save, obj, path, **kw)
